@@ -5,6 +5,7 @@ pub mod gen;
 pub mod parsed_cases;
 pub mod parser_drive;
 pub mod parsers;
+pub mod renumber_drive;
 pub mod reader_hist;
 pub mod scan_vectors;
 pub mod sink;
